@@ -69,7 +69,11 @@ META = {
         "R9 title text: clean_astext has an image-alt step and a raw-node step, every return comes after each step (or is an early exit "
         "whose condition examines that node class), and the steps run on a deep copy. "
         "R10 complete slug registry: every path through render_heading (helpers inlined) hands the heading to generate_heading_target, "
-        "and there the store into the slug registry is guarded by nothing but the anchor-depth test (heading_anchors)."
+        "and there the store into the slug registry is guarded by nothing but the anchor-depth test (heading_anchors). "
+        "R11 no loop-carried values: every local used in a registry entry, a refid store or a fill-in is (re)assigned on every path from "
+        "the start of the same loop iteration (a title or id found for one target/link cannot leak into the next). "
+        "R3 also requires that the position the reader takes the refid from is filled by the registry's writer with the id docutils "
+        "assigned to the node (node['ids'][...]), not with an id re-computed from the title."
     ),
     "not_decided": (
         "which node a given name resolves to at run time (contents of document.nametypes/nameids/ids and myst_slugs for a concrete "
@@ -1473,8 +1477,9 @@ def _registry_writer_positions(corpus: Corpus, rs: Resolver) -> dict[str, dict[s
             pos.setdefault("id", i)
         elif _direct(f, e, lambda s: isinstance(s, ast.Call) and (dotted(s.func) or "").endswith("astext")):
             pos.setdefault("title", i)
-    if set(pos) != {"id", "title"}:
-        raise Unsupported(f"slug registry tuple `{short(n.value, 50)}`: id/title positions not recognised ({pos})")
+    if "title" not in pos:
+        raise Unsupported(f"slug registry tuple `{short(n.value, 50)}`: title position not recognised ({pos})")
+    # a missing "id" (no element reads the node's registered `["ids"]`) is judged by R3, not an extraction failure
     out["slugs"] = pos
     out["_sites"] = {"explicit": rs.m.site(rs.explicit_store), "slugs": f.module.site(n)}  # type: ignore[assignment]
     out["_writer"] = {"slugs": (f, n)}  # type: ignore[assignment]
@@ -1569,6 +1574,24 @@ def r3_loop_paths(corpus: Corpus, rep: Report, tier: str):
             if cls in ("explicit", "slugs"):
                 k = f"{fq}|{cls} hit: refid comes from the registry's id position"
                 got = _registry_positions_of(rs, val)
+                if "id" not in pos[cls]:
+                    wf, wst = pos["_writer"][cls]  # type: ignore[index]
+                    elts = wst.value.elts
+                    ps = sorted(p for r, p in got if r == cls)
+                    stored = elts[ps[0]] if ps and ps[0] < len(elts) else None
+                    if stored is None:
+                        rep.error(R3, f"refid value `{short(val, 40)}` at {site}: origin not understood")
+                    else:
+                        recomputed = _derives(wf, stored, lambda x: isinstance(x, ast.Call) and (dotted(x.func) or "").rsplit(".", 1)[-1] in LOSSY_NAME_FUNCS)
+                        rep.violation(
+                            R3,
+                            k,
+                            pos["_sites"][cls],  # type: ignore[index]
+                            f"`{short(node, 50)}` takes the refid from position {ps[0]} of the {cls} registry, where the writer stores `{short(stored, 40)}`"
+                            + (" - an id re-computed from the title" if recomputed else "")
+                            + " instead of the id docutils assigned to the node (`node['ids'][0]`): with repeated titles docutils assigns id1, id2, ... so `#usage-1` is pointed at the first 'Usage' section",
+                        )
+                    continue
                 want = (cls, pos[cls]["id"])
                 if got == {want}:
                     rep.ok(R3, k, site, f"{short(node, 50)} <- {cls}[target][{want[1]}]; writer at {pos['_sites'][cls]}")  # type: ignore[index]
@@ -2735,7 +2758,65 @@ def r10_slug_registry_complete(corpus: Corpus, rep: Report, tier: str):
     rep.expect_min(R10, 2, "the store guard and the call in render_heading")
 
 
-RULES = [r1_dispatch, r2_attribute_agreement, r3_loop_paths, r4_key_normalisation, r5_explicit_only, r6_title_extraction, r7_slug_key_fresh, r8_slug_registry_monotone, r9_title_text_sanitised, r10_slug_registry_complete]
+# ---------------------------------------------------------------------------
+# R11 no value is carried over from one loop iteration to the next
+
+
+def _loop_body_nodes(loop: ast.For) -> set[int]:
+    return {id(n) for st in loop.body for n in [st] + list(walk_local(st))}
+
+
+@rule("C09.R11")
+def r11_no_loop_carried_values(corpus: Corpus, rep: Report, tier: str):
+    R11 = "C09.R11"
+    rep.rule(R11, "what is stored for one name / one link (registry entry, refid, fill-in text) is computed in the same loop iteration: every local it uses is (re)assigned on every path from the start of the iteration")
+    rs = _resolver(corpus)
+    fi, cfg, m = rs.fi, rs.cfg, rs.m
+
+    def check(loop: ast.For, stmt: ast.stmt, exprs: list[ast.AST], what: str) -> None:
+        inside = _loop_body_nodes(loop)
+        targets = {n.id for n in ast.walk(loop.target) if isinstance(n, ast.Name)}
+        names = sorted({n.id for e in exprs for n in ast.walk(e) if isinstance(n, ast.Name) and isinstance(n.ctx, ast.Load)} - targets)
+        for nm in names:
+            defs = [st for _, _, st in _bindings(fi, nm)]
+            in_loop = [d for d in defs if id(d) in inside]
+            if not in_loop:
+                continue  # a loop-invariant value (registry, constant, self)
+            dstmts = []
+            for d in in_loop:
+                try:
+                    dstmts.append(cfg.stmt_of(d))
+                except Unsupported:
+                    pass
+            k = f"{fi.fq}|`{nm}` in {what} is assigned in the same iteration"
+            stale = cfg.paths_avoiding(("T", loop), stmt, lambda n: any(n is d for d in dstmts) or n is loop)
+            if not stale:
+                rep.ok(R11, k, m.site(stmt))
+            else:
+                outer = [d for d in defs if id(d) not in inside]
+                rep.violation(
+                    R11,
+                    k,
+                    m.site(stmt),
+                    f"`{short(stmt, 50)}` can be reached from the start of an iteration of `{short(loop, 40)}` without `{nm}` being assigned in that iteration"
+                    + (f" (it is only initialised before the loop: `{short(outer[0], 40)}`)" if outer else "")
+                    + f": the value found for the previous {'name' if loop is rs.explicit_loop else 'link'} is carried over - e.g. an explicit target without a title inherits the title of the target gathered before it, "
+                    "so an empty link to it shows that other title instead of '#name'",
+                )
+
+    st = rs.explicit_store
+    check(rs.explicit_loop, cfg.stmt_of(st), [st.value, st.targets[0].slice], "the registry entry")
+    for sto in rs.refid_stores:
+        check(rs.loop, cfg.stmt_of(sto), [sto.value], f"`{short(sto, 40)}`")
+    for n in rs.body:
+        if rs.is_add_child(n) and isinstance(n, ast.AugAssign):
+            lf = rs.lookup_facts(cfg.stmt_of(n))
+            branch = "explicit hit" if True in lf["explicit"] else "slug hit" if True in lf["slugs"] else "miss" if (False in lf["explicit"] and False in lf["slugs"]) else "other"
+            check(rs.loop, cfg.stmt_of(n), [n.value], f"the {branch} fill-in `{short(n, 40)}`")
+    rep.expect_min(R11, 3, "registry entry (id, title) and the refid values")
+
+
+RULES = [r1_dispatch, r2_attribute_agreement, r3_loop_paths, r4_key_normalisation, r5_explicit_only, r6_title_extraction, r7_slug_key_fresh, r8_slug_registry_monotone, r9_title_text_sanitised, r10_slug_registry_complete, r11_no_loop_carried_values]
 
 
 # ---------------------------------------------------------------------------
@@ -3091,4 +3172,29 @@ def mutants(corpus: Corpus):
         asg = find_node(g, lambda n: isinstance(n, ast.Assign) and isinstance(n.value, ast.Subscript) and isinstance(n.value.slice, ast.Slice) and isinstance(n.value.slice.lower, ast.Constant) and n.value.slice.lower.value == 8)
         if asg is not None:
             add(f"c09-project-prefix-lstrip-{mid}", R1, m_, splice(m_.src, asg.value, f'{_seg(m_, asg.value.value)}.lstrip("project:")'), "strip prefix")
+    # ---- R11: a per-iteration value initialised before the loop only -----------------------------------------------------------------
+    lp = rs.explicit_loop
+    title_elt = rs.explicit_store.value.elts[-1] if isinstance(rs.explicit_store.value, ast.Tuple) else None
+    if isinstance(title_elt, ast.Name):
+        reset = find_node(f, lambda n: isinstance(n, (ast.Assign, ast.AnnAssign)) and n in lp.body and isinstance(n.value, ast.Constant) and n.value.value is None
+                          and any(isinstance(t, ast.Name) and t.id == title_elt.id for t in (n.targets if isinstance(n, ast.Assign) else [n.target])))
+        if reset is not None:
+            seg = _seg(tr, lp)
+            rs_seg = _seg(tr, reset)
+            j = seg.index(rs_seg)
+            add("c09-title-reset-hoisted-out-of-loop", "C09.R11", tr, splice(tr.src, lp, f"{title_elt.id} = None\n{_indent(tr, lp)}" + seg[:j] + "pass" + seg[j + len(rs_seg):]), "assigned in the same iteration")
+        else:
+            out.append(("c09-title-reset-hoisted-out-of-loop", "no per-iteration reset of the title variable in the registry loop"))
+    idasg = find_node(f, lambda n: isinstance(n, ast.Assign) and n in lp.body and any(isinstance(x, ast.Attribute) and x.attr == "nameids" for x in ast.walk(n.value)) and isinstance(n.targets[0], ast.Name))
+    if idasg is not None:
+        nm = idasg.targets[0].id
+        sub = find_node(f, lambda n: isinstance(n, ast.Subscript) and n is idasg.value)
+        if sub is not None:
+            add("c09-labelid-conditionally-assigned", "C09.R11", tr, splice(tr.src, idasg, f"if {_seg(tr, sub.slice)} in {_seg(tr, sub.value)}:\n{_indent(tr, idasg)}    {_seg(tr, idasg)}"), "assigned in the same iteration")
+    # ---- R3: the slug registry stores something else than the node's registered id -------------------------------------------------------
+    if hst is not None and isinstance(hst.value, ast.Tuple):
+        ide = [e for e in hst.value.elts if any(isinstance(x, ast.Constant) and x.value == "ids" for x in ast.walk(e))]
+        if ide:
+            add("c09-slug-registry-stores-recomputed-id", R3, base, splice(base.src, ide[0], "nodes.make_id(name)"), "id docutils assigned")
+            add("c09-slug-registry-stores-slug-as-id", R3, base, splice(base.src, ide[0], "slug"), "id docutils assigned")
     return out
